@@ -19,15 +19,15 @@ REASONS = [
     # ------------------------------------------------------------------ narrow (32-bit) counters
     # (64-bit arithmetic is not audited: see analysis/panics.py IGNORE_REASON; anything narrower needs a row)
     (r"^network_filter_list::token_histogram$", r"^assert\|Overflow\(Add\):u32\|", "local",
-     COUNTER_32 + " (one increment per token of the list being indexed)", None),
+     COUNTER_32 + " (one increment per token of the list being indexed)", None, []),
     (r"^network_filter_list::NetworkFilterList::new$", r"^assert\|Overflow\(Add\):u32\|", "local",
-     "total_number_of_tokens + 1, where the total is the u32 token count of the list: " + COUNTER_32, None),
+     "total_number_of_tokens + 1, where the total is the u32 token count of the list: " + COUNTER_32, None, []),
     (r"^url_parser::parser::Input::<'i>::count_matching$", r"^assert\|Overflow\(Add\):u32\|", "local",
-     COUNTER_32 + " (one increment per character of the URL being parsed)", None),
+     COUNTER_32 + " (one increment per character of the URL being parsed)", None, []),
     (r"^url_parser::parser::Parser::parse_userinfo$", r"^assert\|Overflow\(Add\):i32\|", "local",
-     COUNTER_32 + " (one increment per character of the URL being parsed)", None),
+     COUNTER_32 + " (one increment per character of the URL being parsed)", None, []),
     (r"^filters::network::validate_options$", r"^assert\|Overflow\(Add\):i32\|", "local",
-     COUNTER_32 + " (one increment per option of one rule line)", None),
+     COUNTER_32 + " (one increment per option of one rule line)", None, []),
     # ------------------------------------------------------------------ blocker.rs
     (r"^blocker::Blocker::borrow_regex_manager$", r"^borrow\|", "total",
      "RefCell::borrow_mut cannot already be borrowed: no re-entrant acquisition exists (rule C19.3.single-lock, "
